@@ -116,6 +116,10 @@ def main(argv=None) -> int:
         print(f"note: listed finding no longer reported (repaired?): {k['rule']} {k['key']}")
 
     replay_dir = VERIF / "evidence" / "replay"
+    if a.src:
+        # a scratch tree (self-test variants, development tools): its reports do not belong to the evidence of /repo
+        import tempfile
+        replay_dir = Path(tempfile.gettempdir()) / "physt-verif-replay"
     rc = 0
     extra_viol = extra.get("violations", []) if extra else []
     for r in unlisted + extra_viol:
@@ -124,7 +128,7 @@ def main(argv=None) -> int:
         rp = replay_dir / f"{prop}-{finding_id(prop, r)}.json"
         rp.write_text(json.dumps(dict(property=prop, **r), indent=1))
         print(f"{r['rule']} VIOLATED at {r['where']}\n    instance: {r['key']}\n    {r['detail']}")
-        print(f"VIOLATION property={prop} replay={rp.relative_to(VERIF)}")
+        print(f"VIOLATION property={prop} replay={rp.relative_to(VERIF) if not a.src else rp}")
 
     if not a.no_evidence and not a.src:
         write_evidence(prop, tier, seed, ctx, mod, listed, unlisted, extra, time.time() - t0)
